@@ -18,7 +18,7 @@ theorem Graph.set_ne (g : Graph V) {i j : Nat} (n : Node V) (h : j ≠ i) : (g.s
 def StaticEq (a b : Node V) : Prop :=
   match a, b with
   | .param x v, .param y w => x = y ∧ v = w
-  | .struct s, .struct t => s.fn = t.fn ∧ s.scalars = t.scalars ∧ s.arrays = t.arrays
+  | .struct s, .struct t => s.fn = t.fn ∧ s.scalars = t.scalars ∧ s.arrays = t.arrays ∧ s.reads = t.reads
   | _, _ => False
 
 theorem StaticEq.rfl' (a : Node V) : StaticEq a a := by
@@ -36,12 +36,16 @@ theorem StaticEq.struct_left {a : Node V} {t : SNode V} (h : StaticEq a (.struct
   | param x v => simp [StaticEq] at h
   | struct s =>
     simp only [StaticEq] at h
-    exact ⟨s, rfl, h.1, h.2.1, h.2.2, by simp [SNode.deps, h.2.1, h.2.2]⟩
+    exact ⟨s, rfl, h.1, h.2.1, h.2.2.1, by simp [SNode.deps, h.2.1, h.2.2.1]⟩
 
 theorem StaticEq.struct_right {a : Node V} {t : SNode V} (h : StaticEq (.struct t) a) :
     ∃ s, a = .struct s ∧ s.fn = t.fn ∧ s.scalars = t.scalars ∧ s.arrays = t.arrays ∧ s.deps = t.deps := by
   have := StaticEq.struct_left h.symm
   exact this
+
+theorem StaticEq.reads_eq {s t : SNode V} (h : StaticEq (.struct s) (.struct t)) : s.reads = t.reads := by
+  simp only [StaticEq] at h
+  exact h.2.2.2
 
 theorem StaticEq.param_left {a : Node V} {x : V} {v : Nat} (h : StaticEq a (.param x v)) : a = .param x v := by
   cases a with
@@ -69,6 +73,14 @@ theorem Acyclic.of_static {F : Nat} {g g' : Graph V} (h : Acyclic F g) (hs : Sam
   obtain ⟨rank, hr⟩ := h
   exact ⟨rank, hr.of_static hs⟩
 
+theorem ReadsAll.of_static {g g' : Graph V} (h : ReadsAll g) (hs : SameStatic g' g) : ReadsAll g' := by
+  intro i s hi
+  have h1 := hs i
+  rw [hi] at h1
+  obtain ⟨t, ht, -⟩ := StaticEq.struct_right h1
+  rw [ht] at h1
+  rw [StaticEq.reads_eq h1, h i t ht]
+
 theorem executed_deps (s : SNode V) (g1 : Graph V) (vals : List V) : (s.executed g1 vals).deps = s.deps := rfl
 
 /-! ### evaluation never touches parameters, processors or wiring (I3, static part) -/
@@ -82,6 +94,24 @@ theorem pull_static (ev : Graph V → Nat → Graph V × Log)
     simp only [pull]
     exact (ih _).trans (hev g d)
 
+theorem pullM_static (ev : Graph V → Nat → Graph V × Log) (reads : List V → Bool)
+    (hev : ∀ g d, SameStatic (ev g d).1 g) (g : Graph V) (ds : List Nat) (acc : List V) :
+    SameStatic (pullM ev reads g ds acc).1 g := by
+  induction ds generalizing g acc with
+  | nil => exact SameStatic.refl g
+  | cons d ds ih =>
+    simp only [pullM]
+    split
+    · exact (ih _ _).trans (hev g d)
+    · exact ih _ _
+
+/-- a processor that reads all its inputs: `pullM` is `pull` -/
+theorem pullM_all (ev : Graph V → Nat → Graph V × Log) (g : Graph V) (ds : List Nat) (acc : List V) :
+    pullM ev (fun _ => true) g ds acc = ((pull ev g ds).1, acc ++ (pull ev g ds).2.1, (pull ev g ds).2.2) := by
+  induction ds generalizing g acc with
+  | nil => simp [pullM, pull]
+  | cons d ds ih => simp [pullM, pull, ih]
+
 theorem eval_static (f : Nat) (g : Graph V) (i : Nat) : SameStatic (eval f g i).1 g := by
   induction f generalizing g i with
   | zero => exact SameStatic.refl g
@@ -93,7 +123,7 @@ theorem eval_static (f : Nat) (g : Graph V) (i : Nat) : SameStatic (eval f g i).
       split
       · intro j
         dsimp only
-        have hp := pull_static (fun g d => eval f g d) (fun g d => ih g d) g s.deps
+        have hp := pullM_static (fun g d => eval f g d) s.reads (fun g d => ih g d) g s.deps []
         by_cases hj : j = i
         · subst hj
           simp only [Graph.set_same, hs]
@@ -288,6 +318,20 @@ theorem pull_congr (ev ev' : Graph V → Nat → Graph V × Log) (g : Graph V) (
     rw [← h0]
     rw [ih (ev g d).1 (fun g' hg' e he => h g' (hg'.trans (hst g d)) e (List.mem_cons_of_mem _ he))]
 
+theorem pullM_congr (ev ev' : Graph V → Nat → Graph V × Log) (reads : List V → Bool) (g : Graph V) (ds : List Nat)
+    (acc : List V) (hst : ∀ g d, SameStatic (ev g d).1 g)
+    (h : ∀ g', SameStatic g' g → ∀ d ∈ ds, ev g' d = ev' g' d) :
+    pullM ev reads g ds acc = pullM ev' reads g ds acc := by
+  induction ds generalizing g acc with
+  | nil => rfl
+  | cons d ds ih =>
+    simp only [pullM]
+    have h0 := h g (SameStatic.refl g) d (List.mem_cons_self ..)
+    rw [← h0]
+    split
+    · rw [ih (ev g d).1 _ (fun g' hg' e he => h g' (hg'.trans (hst g d)) e (List.mem_cons_of_mem _ he))]
+    · exact ih g _ (fun g' hg' e he => h g' hg' e (List.mem_cons_of_mem _ he))
+
 theorem eval_fuel (g : Graph V) (hwf : Ranked rank F g) (f1 f2 i : Nat) (h1 : rank i < f1) (h2 : rank i < f2) :
     eval f1 g i = eval f2 g i := by
   induction f1 generalizing f2 i g with
@@ -301,8 +345,8 @@ theorem eval_fuel (g : Graph V) (hwf : Ranked rank F g) (f1 f2 i : Nat) (h1 : ra
       · rfl
       · rename_i s hs
         rw [outdated_fuel g hwf (f1+1) (f2+1) i h1 h2]
-        have hp : pull (fun g d => eval f1 g d) g s.deps = pull (fun g d => eval f2 g d) g s.deps := by
-          apply pull_congr
+        have hp : pullM (fun g d => eval f1 g d) s.reads g s.deps [] = pullM (fun g d => eval f2 g d) s.reads g s.deps [] := by
+          apply pullM_congr
           · intro g d; exact eval_static f1 g d
           · intro g' hg' d hd
             have := hwf.2 i s hs d hd
@@ -348,20 +392,21 @@ theorem Spec_eq (g : Graph V) (hwf : Ranked rank F g) (i : Nat) :
     have := hwf.1 i
     exact evalSpec_fuel g hwf _ _ d (by omega) (by omega)
 
+/-- `Struct.Value()` in general (processors may skip inputs) -/
 theorem Eval_eq (g : Graph V) (hwf : Ranked rank F g) (i : Nat) :
     Eval F g i = match g i with
       | .param _ _ => (g, [])
       | .struct s =>
         if Outdated F g i then
-          let r := pull (Eval F) g s.deps
+          let r := pullM (Eval F) s.reads g s.deps []
           (r.1.set i (.struct (s.executed r.1 r.2.1)), r.2.2 ++ [(i, s.version + 1)])
         else (g, []) := by
   obtain ⟨F', rfl⟩ : ∃ F', F = F' + 1 := ⟨F - 1, by have := hwf.1 i; omega⟩
   cases hs : g i with
   | param x v => simp [Eval, eval, hs]
   | struct s =>
-    have hp : pull (fun g d => eval F' g d) g s.deps = pull (Eval (F'+1)) g s.deps := by
-      apply pull_congr
+    have hp : pullM (fun g d => eval F' g d) s.reads g s.deps [] = pullM (Eval (F'+1)) s.reads g s.deps [] := by
+      apply pullM_congr
       · intro g d; exact eval_static F' g d
       · intro g' hg' d hd
         have := hwf.2 i s hs d hd
@@ -370,6 +415,23 @@ theorem Eval_eq (g : Graph V) (hwf : Ranked rank F g) (i : Nat) :
     simp only [Eval, eval, hs]
     rw [hp]
     rfl
+
+/-- `Struct.Value()` for processors that read all their wired inputs -/
+theorem Eval_eq_all (g : Graph V) (hwf : Ranked rank F g) (hra : ReadsAll g) (i : Nat) :
+    Eval F g i = match g i with
+      | .param _ _ => (g, [])
+      | .struct s =>
+        if Outdated F g i then
+          let r := pull (Eval F) g s.deps
+          (r.1.set i (.struct (s.executed r.1 r.2.1)), r.2.2 ++ [(i, s.version + 1)])
+        else (g, []) := by
+  rw [Eval_eq g hwf]
+  cases hs : g i with
+  | param x v => rfl
+  | struct s =>
+    dsimp only
+    rw [hra i s hs, pullM_all]
+    simp
 
 end
 
